@@ -68,7 +68,7 @@ BOUNDS = {
 }
 
 PLAN = {
-    "quick": {"desc": [("full", 2), ("small", 3)], "pool": 260, "sets": 7, "algo": "small", "cap": 120},
+    "quick": {"desc": [("full", 2), ("small", 3)], "pool": 400, "sets": 7, "algo": "small", "cap": 200},
     "thorough": {"desc": [("full", 3), ("small", 4)], "pool": 1500, "sets": 9, "algo": "large", "cap": 500},
 }
 
